@@ -4,7 +4,13 @@
 EXTENDS Affine, Json, IOUtils
 Cases == ndJsonDeserialize(IOEnv.CASES)
 Obs   == ndJsonDeserialize(IOEnv.OBS)
-Close(obs, r, unit, tol) == AbsI(obs * r[2] - r[1] * unit) <= tol * r[2]
+\* floor(r * 1000) and the remainder, without leaving 32 bits for denominators up to 2 * 10^6 (TLA+ \div and % floor)
+Times1000(r) == LET q == r[1] \div r[2]  rem == r[1] % r[2] IN <<q * 1000 + (rem * 1000) \div r[2], (rem * 1000) % r[2]>>
+FloorScaled(r, unit) == IF unit = 1000 THEN Times1000(r)[1]
+                        ELSE LET a == Times1000(r)  b == Times1000(<<a[2], r[2]>>) IN a[1] * 1000 + b[1]          \* unit = 10^6
+\* small denominators: exact cross-multiplication; large ones (the very small angles): compare with the floor, one more unit of slack
+Close(obs, r, unit, tol) == IF r[2] <= 20000 THEN AbsI(obs * r[2] - r[1] * unit) <= tol * r[2]
+                            ELSE AbsI(obs - FloorScaled(r, unit)) <= tol + 1
 \* expected values are recomputed here from the operation (the generator's own expectation is only used for the samples)
 ExpFor(c, j) == IF c.kind = "inverse" THEN [k \in 1 .. Len(c.trees[j]) |-> PtI(c.trees[j][k])]
                 ELSE [k \in 1 .. Len(c.trees[j]) |-> Apply(Eff(c.o, PtI(c.trees[j][1])), PtI(c.trees[j][k]))]
